@@ -61,7 +61,9 @@ def dimdefs(letters="tpq"):
     return [DimensionDefinition(name=NAMES[l], letter=l, dtype=DTYPES[l]) for l in letters]
 
 
-def mem_reader():
+def mem_reader(superset=False, unnamed=False):
+    """superset: read_dimensions hands back a LARGER set (t, p, q, y) than the definition lists;
+    unnamed: the parameters come back without a name (the system files them under the definition's name)"""
     import flodym
 
     class MemReader(flodym.DataReader):
@@ -69,7 +71,14 @@ def mem_reader():
             return flodym.Dimension(name=d.name, letter=d.letter, items=list(ITEMS[d.letter]), dtype=d.dtype)
 
         def read_parameter_values(self, parameter_name, dims):
+            if unnamed:
+                return flodym.Parameter(dims=dims, values=param_values(dims))
             return flodym.Parameter(dims=dims, values=param_values(dims), name=parameter_name)
+
+        def read_dimensions(self, dimension_definitions):
+            if superset:
+                return flodym.DimensionSet(dim_list=[self.read_dimension(d) for d in dimdefs("tpqy")])
+            return super().read_dimensions(dimension_definitions)
 
     return MemReader()
 
@@ -337,6 +346,12 @@ def run_invalid_case(which):
             kw["parameters"] = [ParameterDefinition(name="x", dim_letters=("q",))]
         elif which == "stock-undefined-dim":
             kw["stocks"] = [StockDefinition(name="s", dim_letters=("t", "q"), subclass=flodym.SimpleFlowDrivenStock, process="use")]
+        elif which in ("undefined-dim-not-last", "undefined-dim-not-last-superset-reader"):
+            # the offending definition is not the last one; the reader may know more dimensions than the definition lists
+            kw["flows"] = [FlowDefinition(from_process="sysenv", to_process="use", dim_letters=("t", "y")), FlowDefinition(from_process="use", to_process="sysenv", dim_letters=("t", "p"))]
+            kw["parameters"] = [ParameterDefinition(name="x", dim_letters=("p",))]
+            defn = MFADefinition(**kw)
+            return flodym.MFASystem.from_data_reader(defn, mem_reader(superset=which.endswith("superset-reader")))
         elif which == "two-letter-dim":
             kw["flows"] = [FlowDefinition(from_process="sysenv", to_process="use", dim_letters=("tp",))]
         elif which == "bad-solver":
@@ -352,7 +367,7 @@ def run_invalid_case(which):
     return "refused-as-required", None
 
 
-INVALID = ["flow-undefined-dim", "param-undefined-dim", "stock-undefined-dim", "two-letter-dim", "bad-solver", "not-a-lifetime-class"]
+INVALID = ["flow-undefined-dim", "param-undefined-dim", "stock-undefined-dim", "two-letter-dim", "bad-solver", "not-a-lifetime-class", "undefined-dim-not-last", "undefined-dim-not-last-superset-reader"]
 
 
 def run_params_case(plist):
@@ -366,7 +381,8 @@ def run_params_case(plist):
 
     def build():
         defn = MFADefinition(dimensions=dimdefs("tpq"), processes=["sysenv"], flows=[], stocks=[], parameters=[ParameterDefinition(name=f"par {k}", dim_letters=tuple(a)) for k, a in enumerate(plist)])
-        return flodym.MFASystem.from_data_reader(defn, mem_reader())
+        # (every other parameter list goes through a reader that returns the parameters without naming them)
+        return flodym.MFASystem.from_data_reader(defn, mem_reader(unnamed=(sum(len(a) for a in plist) % 2 == 1)))
 
     st, mfa = attempt(build)
     if st == "raised":
@@ -380,7 +396,7 @@ def run_params_case(plist):
         e = check_array(p, a, False, f"parameter {k}")
         if e:
             return fail(e)
-        if p.name != f"par {k}":
+        if p.name != f"par {k}" and not (sum(len(a) for a in plist) % 2 == 1):  # (a reader that does not name its parameters: only the key is stated)
             return fail(f"parameter carries name {p.name!r}")
         if not np.array_equal(p.values, param_values(p.dims)):
             return fail(f"parameter {k} values are not the reader's values by label")
@@ -409,7 +425,7 @@ def write_dim_file(path, fmt, orient, header, name, items, sheets):
         return "the dims"
 
 
-ITEM_LISTS = {int: [[2005], [2001, 1999], [3, 1, 2], [2020, 2030, 2025], [7, 2000, 5], [5, 4, 3, 2, 1, 0]], str: [["only"], ["b", "a"], ["x y", "z", "w"], ["10", "9", "8"], ["steel", "316", "copper"], ["north", "Region", "south"]]}  # last str list: a text item first, then a number-like one
+ITEM_LISTS = {int: [[2005], [2001, 1999], [3, 1, 2], [2020, 2030, 2025], [7, 2000, 5], [5, 4, 3, 2, 1, 0], [0, 1]], str: [["only"], ["b", "a"], ["x y", "z", "w"], ["10", "9", "8"], ["steel", "316", "copper"], ["north", "Region", "south"], ["r", "s", "t"]]}  # last str list: a text item first, then a number-like one
 
 
 def run_dimfile_case(fmt, orient, header, dtype_name, li, sheets):
@@ -617,7 +633,7 @@ def run_unit(u):
     elif k == "dimfiles":
         for header in (False, True):
             for dt in ("int", "str"):
-                for li in range(6):  # (the last text list holds the dimension's own name as an item)
+                for li in range(7):  # (text lists 5 and 6: the dimension's own name as an item; its letter "r" as first item)
                     for sheets in (("single",) if u["fmt"] == "csv" else ("single", "first-of-several", "named-second")):
                         rec(*run_dimfile_case(u["fmt"], u["orient"], header, dt, li, sheets))
         if u["fmt"] == "excel" and u["orient"] == "row":
